@@ -132,6 +132,20 @@ pub fn all_dead(lo: usize, hi: usize) -> bool {
     ok
 }
 
+/// No id at all is live (word-wise, so the loop has M/8 iterations).
+pub fn none_live() -> bool {
+    let p = unsafe { core::ptr::addr_of!(LIVE) } as *const u64;
+    let mut k = 0;
+    let mut ok = true;
+    while k < M / 8 {
+        if unsafe { p.add(k).read_unaligned() } != 0 {
+            ok = false;
+        }
+        k += 1;
+    }
+    ok
+}
+
 pub fn all_live(lo: usize, hi: usize) -> bool {
     let mut i = lo;
     let mut ok = true;
@@ -188,10 +202,29 @@ pub fn reg_builder(p: *const usize) {
         NBUILD += 1;
     }
 }
+/// true once `finish()` has forgotten the builder registered at this address (it no longer guards anything)
+pub static mut BUILD_FIN: [bool; 4] = [false; 4];
+pub fn fin_builder(p: *const usize) {
+    unsafe {
+        let mut k = 0;
+        while k < 4 {
+            if k < NBUILD && BUILD[k] == p {
+                BUILD_FIN[k] = true;
+            }
+            k += 1;
+        }
+    }
+}
+/// compile-time twin of `fin_builder` for const evaluation of `finish` (const_eval_select)
+pub const fn fin_builder_ct(_p: *const usize) {}
+pub fn builder_finished(k: usize) -> bool {
+    unsafe { BUILD_FIN[k] }
+}
 pub fn reset_monitor() {
     unsafe {
         NCONS = 0;
         NBUILD = 0;
+        BUILD_FIN = [false; 4];
     }
 }
 pub fn consumer_pos(k: usize) -> usize {
@@ -226,3 +259,14 @@ pub struct A16(pub u8);
 #[repr(packed)]
 #[derive(Clone, Copy)]
 pub struct Packed(pub u8, pub u32);
+
+impl kani::Arbitrary for Pad {
+    fn any() -> Self {
+        Pad(kani::any(), kani::any())
+    }
+}
+impl kani::Arbitrary for W24 {
+    fn any() -> Self {
+        W24(kani::any(), kani::any(), kani::any())
+    }
+}
